@@ -55,3 +55,4 @@ DENY_DTYPES = {
     'lst_hb_col': 0x1f,
 }
 DENY_CAST_INTO = {'hybrid8_3', 'hybrid6_1', 'hybrid12_2'}
+DENY_VIEW_SOURCES = set()
